@@ -77,7 +77,7 @@ def generate(tier, rng):
                'pop': _pop(rng, 2, 5), 'rounds': _rounds(rng, 5), 'seed': rng.randrange(1000)}
   for K in [2, 3]:
     for clr in ([0.125] if tier == 'quick' else [0.0625, 0.125, 0.25]):
-      for rep in range(2 * reps):
+      for rep in range(3 * reps):
         pop = _pop(rng, 2, 5)
         rounds = _rounds(rng, 5)
         if rep == 0:
@@ -530,9 +530,11 @@ def encode(case, obs):
     for ro in obs['rounds']:
       if ro['nK'] != [hp['K'], hp['K']]:
         return None
-      for a, ls in zip(ro['assign'], ro['losses']):
+      for a, ls, c in zip(ro['assign'], ro['losses'], ro['clients']):
         srt = sorted(set(ls))
-        tie_exact = all(ro['same_bits'][i][j] for i in range(len(ls)) for j in range(len(ls)) if ls[i] == min(ls) and ls[j] == min(ls))
+        # ties are exact in the implementation too when the tied clusters are bit-identical or the client is empty
+        tie_exact = c['n'] == 0 or all(ro['same_bits'][i][j] for i in range(len(ls)) for j in range(len(ls))
+                                        if ls[i] == min(ls) and ls[j] == min(ls))
         clear = (len(srt) == 1 or srt[1] - srt[0] > 10 * TOL * (1 + abs(srt[0]))) and tie_exact
         if clear:
           ins.append(f'(IArgmin {_ql(ls)})')
